@@ -185,7 +185,7 @@ func buildUCI(params json.RawMessage) explore.Scenario {
 				default:
 					if strings.HasPrefix(l, "!") {
 						l = l[1:]
-						vs.WaitUntil("release", func() bool { return vs.Step() >= p.Release })
+						vs.WaitStep("release", p.Release)
 					}
 					vs.WaitUntil("gui-send", func() bool { return len(r.in) < cap(r.in) || dead() })
 					if dead() {
